@@ -1749,6 +1749,67 @@ def _rebinding_chains(tree):
                 i += 1
 
 
+def _partial_defs(tree):
+    """A module-level ``name = functools.partial(f, a, b, k=v)`` whose f is a
+    function of the same module with a plain parameter list is the function
+    ``def name(<remaining parameters>): return f(a, b, <remaining>, k=v)``:
+    callers, the call graph and the inliner then see an ordinary function."""
+    if not isinstance(tree, ast.Module):
+        return
+    defs = dict((s.name, s) for s in tree.body
+                if isinstance(s, ast.FunctionDef))
+    for i, st in enumerate(tree.body):
+        if not (isinstance(st, ast.Assign) and len(st.targets) == 1 and
+                isinstance(st.targets[0], ast.Name) and
+                isinstance(st.value, ast.Call)):
+            continue
+        c = st.value
+        if ast.unparse(c.func) not in ('functools.partial', 'partial') or \
+                not c.args or not isinstance(c.args[0], ast.Name):
+            continue
+        f = defs.get(c.args[0].id)
+        if f is None or f.args.vararg or f.args.kwarg or \
+                f.args.posonlyargs or f.args.kwonlyargs or any(
+                    isinstance(a, ast.Starred) for a in c.args) or any(
+                    k.arg is None for k in c.keywords):
+            continue
+        bound = c.args[1:]
+        params = f.args.args
+        given = set(k.arg for k in c.keywords)
+        if len(bound) > len(params) or not given <= set(
+                a.arg for a in params[len(bound):]):
+            continue
+        ndef = len(f.args.defaults)
+        rest, defaults = [], []
+        for j, a in enumerate(params):
+            if j < len(bound) or a.arg in given:
+                continue
+            d = j - (len(params) - ndef)
+            if d < 0 and defaults:
+                break       # a parameter without default after a default
+            rest.append(ast.arg(arg=a.arg))
+            if d >= 0:
+                defaults.append(_plain_copy(f.args.defaults[d]))
+        else:
+            call = ast.Call(
+                func=ast.Name(id=f.name, ctx=ast.Load()),
+                args=[_plain_copy(b) for b in bound] + [
+                    ast.Name(id=a.arg, ctx=ast.Load()) for a in rest],
+                keywords=[ast.keyword(arg=k.arg, value=_plain_copy(k.value))
+                          for k in c.keywords])
+            fn = ast.FunctionDef(
+                name=st.targets[0].id,
+                args=ast.arguments(posonlyargs=[], args=rest, vararg=None,
+                                   kwonlyargs=[], kw_defaults=[],
+                                   kwarg=None, defaults=defaults),
+                body=[ast.copy_location(ast.Return(value=call), st)],
+                decorator_list=[], returns=None, type_comment=None,
+                type_params=[])
+            ast.copy_location(fn, st)
+            fn.end_lineno = getattr(st, 'end_lineno', st.lineno)
+            tree.body[i] = ast.fix_missing_locations(fn)
+
+
 def normalise(tree):
     """Canonical statement shapes, so that rules see one spelling of
     equivalent control flow (positions are kept; nothing is executed):
@@ -1761,6 +1822,7 @@ def normalise(tree):
                                           ->  ``if a and b: X``
     4. in a loop body ``if c: continue`` + rest  ->  ``if not c: rest``
     Each step is semantics-preserving for any program."""
+    _partial_defs(tree)
     _quantifier_returns(tree)
     _first_match(tree)
     _unroll_table_loops(tree)
